@@ -18,7 +18,7 @@
    inputs and sizes, are the local statements that induction is made of ([_partial]), the harmlessness
    of the exact-repeat suppression, and the all-schedule characterisation of the start_messages=leafs deadlock. *)
 From Coq Require Import QArith.
-From PyDcop Require Import Base Net M_SyncMixin M_MaxSum P_MaxSum.
+From PyDcop Require Import Base Net M_SyncMixin P_SyncMixin M_MaxSum P_MaxSum P_MaxSum2.
 Local Open Scope Z_scope.
 
 (* factor -> variable message: entry d is the optimum, over all assignments of the factor's other variables,
@@ -76,6 +76,27 @@ Theorem amaxsum_leafs_silent : forall P G,
   forall cf, reachable (amaxsum_proto P G) cf ->
     (forall s d, chan cf s d = []) /\ (forall n, w_held (nodes cf n) = []).
 Proof. exact P_MaxSum.amaxsum_leafs_silent. Qed.
+
+(* ---- deepening: the synchronous instance meets the contract of the mixin (C08), for every well-formed DCOP
+   (distinct computation names, scopes without repetition over declared variables) ... *)
+Theorem maxsum_graph_ok : forall G, wf_dcop G -> graph_ok (nbrs G).
+Proof. exact maxsum_graph_ok_l. Qed.
+
+Theorem maxsum_algo_ok : forall P G, wf_dcop G -> algo_ok (nbrs G) (maxsum_algo P G).
+Proof. exact maxsum_algo_ok_l. Qed.
+
+(* ... hence, for EVERY schedule of the asynchronous network, the run refines the purely functional lock-step
+   system [ms_rounds] (round 0 = on_start everywhere, round k+1 = on_new_cycle(inbox of round k, k) everywhere):
+   the on_new_cycle call with id k at n is handed exactly the messages addressed to n in lock-step round k,
+   and a computation that completed k cycles is in its lock-step state after k rounds (same value selections,
+   _prev_messages and posted messages; the costs dict up to key order).  Derived from C08's sync_round_inputs. *)
+Theorem maxsum_refines_rounds : forall P G, wf_dcop G ->
+  (forall cf act n k msgs, reachable (maxsum_proto P G) cf ->
+     In (EvCycle n k msgs) (snd (step (maxsum_proto P G) cf act)) ->
+     k = cur (w_st (nodes cf n)) /\ NoDup (map fst msgs) /\ dict_equiv msgs (inbox G (ms_rounds P G k) n)) /\
+  (forall cf n, reachable (maxsum_proto P G) cf -> w_running (nodes cf n) = true ->
+     st_equiv (ast (w_st (nodes cf n))) (fst (ms_rounds P G (cur (w_st (nodes cf n))) n))).
+Proof. exact maxsum_refines_rounds_l. Qed.
 
 (* refutations of the full statements on the code as it is (known findings) *)
 Theorem amaxsum_tree_exact_refuted :
